@@ -1602,3 +1602,67 @@ def run_value_moves(tier, log, seed):
     else:
         res.update(status="pass")
     return res
+
+
+# ------------------------------------------------------------------------------------------------ C09 (which price reaches the fee payments)
+def run_fee_prices(tier, log, seed):
+    """reward_beneficiary: every definition of the per-gas price the beneficiary is paid is `effective_gas_price` itself or
+    `effective_gas_price.saturating_sub(basefee)`, and the credited amount is price x gas; reimburse_caller multiplies
+    `effective_gas_price`. (Whether London selects the right one of the two is a compile-time `SPEC::enabled(LONDON)` branch.)"""
+    text = mir.dump("revm", log)
+    funcs = mir.parse_functions(text)
+    duo = smt.Duo(timeout_s=30)
+    failures, inconcl, samples = [], [], []
+
+    def body(name):
+        c = [f for n, fl in funcs.items() for f in fl if (n == name or n.endswith("post_execution::" + name)) and "Gas" in f.sig and "PostExecutionHandler" not in f.sig]
+        return c[0] if len(c) == 1 else None
+    fn = body("reward_beneficiary")
+    if fn is None:
+        inconcl.append("reward_beneficiary: MIR body not found uniquely")
+    else:
+        eff = [l for n, l in fn.debug_all if n == "effective_gas_price"]
+        cgp = [l for n, l in fn.debug_all if n == "coinbase_gas_price"]
+        if len(eff) != 1 or len(cgp) != 1:
+            inconcl.append("reward_beneficiary: locals effective_gas_price / coinbase_gas_price not identifiable")
+        else:
+            eff, cgp = eff[0], cgp[0]
+            eff_ok = [d for d in defs_of(fn, eff) if re.match(r"^primitives::env::Env::effective_gas_price\(", d)]
+            bad = []
+            for d in defs_of(fn, cgp):
+                if re.match(r"^(?:copy|move) %s$" % re.escape(eff), d):
+                    continue
+                m = re.match(r"^ruint::add::<impl Uint<256, 4>>::saturating_sub\(copy %s, (?:move|copy) (_\d+)\)" % re.escape(eff), d)
+                if m:
+                    sub = defs_of(fn, m.group(1))
+                    if len(sub) == 1 and re.search(r"BlockEnv\)\.4: ruint::Uint<256, 4>\)|basefee", sub[0]):
+                        continue
+                    # the subtracted operand must be block.basefee (field 4 of BlockEnv)
+                bad.append(d[:120])
+            term = "false" if (bad or len(eff_ok) != 1) else "true"
+            v, model, detail = duo.check(["(declare-const x Bool)"], [f"(not {term})"])
+            samples.append(f"reward_beneficiary: definitions of the per-gas price: {len(defs_of(fn, cgp))}, not derived from effective_gas_price [- basefee]: {bad}: {v}")
+            log(f"[e3] {samples[-1]}")
+            if v == "sat":
+                st, out = native.call("debug", "reward_amount", log=log)
+                m = re.search(r"coinbase_received=(\d+) expected=(\d+)", out) if st == "ok" else None
+                desc = f"reward_beneficiary pays a per-gas price that is not effective_gas_price (- basefee from London): {bad}"
+                if m:
+                    failures.append(dict(id="reward-price", reproduced=m.group(1) != m.group(2), description=desc + f" | native (fee cap clips the tip): {out}"))
+                else:
+                    inconcl.append(f"reward_beneficiary: native scenario failed: {st} {out}")
+            elif v != "unsat":
+                inconcl.append(f"reward_beneficiary: {detail}")
+    q, tm = duo.queries, duo.time
+    duo.close()
+    res = dict(queries=q, solver_s=tm, engine="mir dataflow scan -> smtlib (z3 4.8.12 + cvc5 1.0)", bounds="; ".join(samples),
+               detail="every reaching definition of coinbase_gas_price is effective_gas_price or effective_gas_price.saturating_sub(block.basefee)")
+    if any(f.get("reproduced") for f in failures):
+        res.update(status="fail", failures=failures, reason=failures[0]["description"][:300])
+    elif inconcl:
+        res.update(status="inconclusive", reason="; ".join(inconcl)[:500])
+    elif failures:
+        res.update(status="fail", failures=failures, reason=failures[0]["description"][:300])
+    else:
+        res.update(status="pass")
+    return res
